@@ -173,6 +173,7 @@ class Program:
     def __init__(s, mirtext, decls):
         s.decls = decls
         s.fns, s.consts = {}, {}
+        s.allocs = {}
         s.by_key = {}       # ('Type','method') or ('Trait','Type','method') -> Fn
         s.closures = {}     # span string -> Fn
         s._parse(mirtext)
@@ -187,6 +188,8 @@ class Program:
                 s._item(ln, lines[i + 1:j]); i = j + 1; continue
             m = re.match(r'^const (\S+): (\S+) = const (.+);$', ln)
             if m: s.consts[m.group(1)] = m.group(3)
+            m = re.match(r'^(alloc\d+) \(static: ([\w:]+)', ln)
+            if m: s.allocs[m.group(1)] = m.group(2)
             i += 1
     def _item(s, header, body_lines):
         kind, rest = header.split(' ', 1)
@@ -238,6 +241,14 @@ class Program:
             t = fn.locals[fn.params[0]]
             sm = re.search(r'\{closure@(' + SPAN + r')\}', t)
             if sm: s.closures.setdefault(sm.group(1), []).append(fn)
+            return
+        xm = re.match(r'^(?:[\w:]*::)?<impl at (/[^>]*)>::(\w+)$', name)
+        if xm and fn.params:
+            # impl generated by an external macro (lazy_static!): key it by the receiver type
+            ty = re.sub(r"<.*>", '', fn.locals[fn.params[0]].replace('&', '').replace('mut ', '')).strip().split('::')[-1]
+            meth = xm.group(2)
+            s.by_key[('*', ty, meth)] = fn
+            if meth in ('deref', 'deref_mut'): s.by_key[('Deref', ty, meth)] = fn; s.by_key[('DerefMut', ty, meth)] = fn
             return
         im = re.match(r'^(?:[\w:]*::)?<impl at (src/\w+\.rs):(\d+):(\d+): (\d+):(\d+)>::(\w+)$', name)
         if im:
@@ -441,6 +452,11 @@ class FnItem:
     __slots__ = ('name',)
     def __init__(s, name): s.name = name
     def __repr__(s): return f'fn<{s.name}>'
+class PyFn:
+    """harness-provided callable standing for a user closure: fn(ex, args) -> value"""
+    __slots__ = ('fn', 'name')
+    def __init__(s, fn, name='pyfn'): s.fn, s.name = fn, name
+    def __repr__(s): return f'<pyfn {s.name}>'
 class Opaque:
     __slots__ = ('tag',)
     def __init__(s, tag): s.tag = tag
@@ -683,7 +699,7 @@ class PathExec:
         if op.startswith('move '): return s.place(fr, op[5:]).v
         if op.startswith('const '): return s.const(op[6:].strip())
         if op.startswith('no_retag '): return s.operand(fr, op[9:])
-        if re.match(r'^[<\w]', op) and '::' in op: return FnItem(op)
+        if re.match(r'^[<\w]', op) and ('::' in op or op in s.prog.fns or strip_generics(op) in s.prog.fns): return FnItem(op)
         raise Unsupported(f'operand {op}')
     def const(s, c):
         m = re.match(r'^(-?\d+)_(\w+)$', c)
@@ -697,6 +713,9 @@ class PathExec:
         if m: return Int(ord(unescape_rust(m.group(1))), 'char')
         m = re.match(r'^(-?[\d.]+(?:[eE][-+]?\d+)?)f64$', c)
         if m: return F64(float(m.group(1)))
+        if strip_generics(c) == 'lazy_static::lazy::Lazy::INIT': return Agg('struct', 'LazyUninit', None, [])
+        am = re.match(r'^\{(alloc\d+): (.+)\}$', c)
+        if am: return s.static_ref(am.group(1))
         if c.startswith('ZeroSized: '): return s.zst(c[11:])
         if c in ('std::f64::EPSILON', 'f64::EPSILON'): return F64(2.220446049250313e-16)
         if c in ('std::f64::MIN_POSITIVE', 'f64::MIN_POSITIVE'): return F64(2.2250738585072014e-308)
@@ -723,6 +742,16 @@ class PathExec:
             if last in s.prog.decls.structs: return Agg('struct', last, None, [])
             raise Unsupported(f'const path {c}')
         raise Unsupported(f'const {c}')
+    def static_ref(s, alloc):
+        """&STATIC: statics live once per path (so a sequence of calls executed on one path shares global state)"""
+        name = s.prog.allocs.get(alloc)
+        if name is None: raise Unsupported(f'anonymous constant allocation {alloc}')
+        st = s.__dict__.setdefault('statics', {})
+        if name not in st:
+            init = s.prog.consts.get(name) or s.prog.consts.get(name.split('::')[-1])
+            if init is None: raise Unsupported(f'static {name} has no MIR initialiser')
+            st[name] = Cell(s.const(init) if isinstance(init, str) else s.run_fn(init, []))
+        return Ptr(st[name], 'ref')
     def zst(s, t):
         m = re.match(r'^\{closure@(' + SPAN + r')\}$', t)
         if m: return Agg('closure', m.group(1), s.cur_fn, [])
@@ -1005,6 +1034,12 @@ class PathExec:
 
     # ---- calls
     def call(s, callee, args):
+        for rx, f in MODEL_OVERRIDES:
+            mm = rx.match(callee)
+            if mm:
+                r = f(s, args, mm)
+                if r is not NotImplemented:
+                    s.eng.models_used.add(f.__name__); return r
         fn = s.prog.resolve(callee)
         if fn is not None: return s.run_fn(fn, args)
         key = strip_generics(callee)
@@ -1021,7 +1056,8 @@ class PathExec:
         return m(s, args)
     def call_value(s, f, args):
         """call a closure / fn item value"""
-        if isinstance(f, Ptr): f = f.cell.v
+        while isinstance(f, Ptr): f = f.cell.v
+        if isinstance(f, PyFn): return f.fn(s, list(args))
         if isinstance(f, Agg) and f.kind == 'closure':
             cands = s.prog.closures.get(f.ty) or []
             if len(cands) > 1 and f.variant:
@@ -1055,6 +1091,11 @@ def balanced(sx):
 
 MODELS = {}
 MODEL_PATTERNS = []
+MODEL_OVERRIDES = []          # models that take precedence over crate MIR (may return NotImplemented to decline)
+def model_override(rx):
+    def deco(f):
+        MODEL_OVERRIDES.append((re.compile(rx), f)); return f
+    return deco
 def model(*names):
     def deco(f):
         for n in names: MODELS[n] = f
